@@ -1,8 +1,8 @@
 (* C08 (b), second part: the hypothesis [sources_agree] holds whenever what sits on the import
    mountpoints is, by the kernel table, the configured source (layercake's own mounts are:
    Proofs/SourcesP.kmount_bind_shown) and is of a kind GetMountSources can reconstruct.
-   The other direction (GetMountSources accepts, the kernel table does not show the source) and
-   binds taken out of an overlay mount are the documented gap: see the refutations below. *)
+   The other direction (GetMountSources accepts, the kernel table does not show the source) is the
+   documented gap: see the refutation at the end. *)
 From LC Require Import Lib.Bytes Lib.Lex Lib.Fields Lib.PathM Gen.Consts
   Model.MountInfo Model.FsTree Model.Kernel Model.Layers Cases.Verdict Cases.LC Cases.C08
   Proofs.ViewP Proofs.C08FoldP Proofs.C08DocP Proofs.C08P Proofs.C08ProbeP Proofs.C08MountedP
@@ -26,7 +26,7 @@ Theorem state_is_documented_shown cfg w e um :
   wf_table (ks_tab (wo_ks w)) = true -> regular_table (ks_tab (wo_ks w)) = true ->
   cfg_dirs_ok cfg = true -> layer_names_distinct cfg w = true ->
   own_mounts_shown cfg w = true ->
-  dir_test_agrees cfg w = true -> no_foreign_on_missing_source cfg w = true ->
+  dir_test_agrees cfg w = true -> no_shown_on_missing_source cfg w = true ->
   C08.step_spec cfg w (view_of_model cfg w e CProbe um) = true.
 Proof.
   intros H1 H2 H3 H4 H5 H6 H7. apply state_is_documented_partial; try assumption.
@@ -60,25 +60,43 @@ Example C08_shown_subroot :
   /\ probe_spec ex_cfg ex_ws1 [] = true.
 Proof. vm_compute. repeat split; reflexivity. Qed.
 
-(* ------------------------------------------------------------------ the gap *)
-(* 6. a table made only by the kernel model from layercake's own mount calls: derived layer
-      "dev" imports a directory of its own build root.  The bind is taken out of the overlay
-      mount, so its mountinfo line has type overlay and the overlay's options; GetMountSources
-      then offers the lower directory only.  `mount dev` makes both mounts and fails with the
-      layer in error; status reports error where the documented state is mounted. *)
+(* ------------------------------------------------------------------ binds out of an overlay *)
+(* 6. (round 1: refuted, probable defect; repaired in round 2) derived layer "dev" imports a
+      directory of its own build root.  The bind is taken out of the overlay mount, so its
+      mountinfo line has type overlay and the overlay's options, with root /opt; GetMountSources
+      now takes the lower directory as source only for root "/" and reconstructs the bind through
+      the device's roots.  `mount dev` succeeds, status reports mounted, the table (built only by
+      the kernel model) satisfies own_mounts_shown. *)
 Definition fs_ovl : fsT :=
   fs_set ex_fs (bs "/b/layers/dev/layerconfig")
          (File (bs "base base" ++ [nl; nl] ++ bs "import bind /b/layers/dev/build/opt /mnt" ++ [nl])).
 Definition w_ovl0 : wobs := MkWO fs_ovl (MkKS [root_line] 2 1).
 Definition w_ovl1 : wobs := v_after (view_of_model ex_cfg w_ovl0 ex_env (CMount (bs "dev")) []).
-Example C08_refuted_bind_out_of_overlay :
-  v_res (view_of_model ex_cfg w_ovl0 ex_env (CMount (bs "dev")) []) = RFail
+Example C08_bind_out_of_overlay_is_mounted :
+  v_res (view_of_model ex_cfg w_ovl0 ex_env (CMount (bs "dev")) []) = ROk
   /\ map (fun k => (k_mp k, k_fstype k, k_root k)) (ks_tab (wo_ks w_ovl1))
      = [(bs "/", bs "ext4", bs "/"); (bs "/b/layers/base/build/mnt", bs "ext4", bs "/host/src");
         (bs "/b/layers/dev/build", bs "overlay", bs "/"); (bs "/b/layers/dev/build/mnt", bs "overlay", bs "/opt")]
-  /\ hyps ex_cfg w_ovl1 = [true; true; true; false; true; true]
-  /\ own_mounts_shown ex_cfg w_ovl1 = false
-  /\ states ex_cfg w_ovl1 [] = Some [(bs "base", st_mounted_busy); (bs "dev", st_error)]
-  /\ C08.doc_states ex_cfg (wo_fs w_ovl1) (ks_tab (wo_ks w_ovl1)) [] = [(bs "base", st_mounted_busy); (bs "dev", st_mounted)]
-  /\ probe_spec ex_cfg w_ovl1 [] = false.
+  /\ hyps ex_cfg w_ovl1 = [true; true; true; true; true; true]
+  /\ regular_table (ks_tab (wo_ks w_ovl1)) = true /\ own_mounts_shown ex_cfg w_ovl1 = true
+  /\ states ex_cfg w_ovl1 [] = Some [(bs "base", st_mounted_busy); (bs "dev", st_mounted)]
+  /\ probe_spec ex_cfg w_ovl1 [] = true.
+Proof. vm_compute. repeat split; reflexivity. Qed.
+
+(* ------------------------------------------------------------------ the gap *)
+(* GetMountSources accepts more than the kernel identity shows: the source string of the device
+   is a candidate for every mount that shows the root of its file system, and for bind imports
+   the type is not compared.  `import bind /host/src /mnt` with `mount -t tmpfs /host/src <mnt>`
+   made by hand: layercake says mounted, but that mount is no bind of /host/src (documented: error). *)
+Definition tmpfs_as_src : kline :=
+  MkK (bs "2") (bs "1") (bs "0:30") (bs "/") (bs "/b/layers/base/build/mnt") (bs "rw,relatime") []
+      (bs "tmpfs") (bs "/host/src") [(bs "rw", None)].
+Definition w_devname : wobs :=
+  MkWO (base_fs (bs "import bind /host/src /mnt")) (MkKS [root_line; tmpfs_as_src] 3 31).
+Example C08_refuted_device_name :
+  hyps ex_cfg w_devname = [true; true; true; false; true; true]
+  /\ own_mounts_shown ex_cfg w_devname = false
+  /\ states ex_cfg w_devname [] = Some [(bs "base", st_mounted)]
+  /\ C08.doc_states ex_cfg (wo_fs w_devname) (ks_tab (wo_ks w_devname)) [] = [(bs "base", st_error)]
+  /\ probe_spec ex_cfg w_devname [] = false.
 Proof. vm_compute. repeat split; reflexivity. Qed.
